@@ -13,6 +13,28 @@ CLAIMED = {
          "TLC checks on MC_Codec that the reference decoders are total, error exactly for over-long slices, treat the empty slice as 0 and invert the reference encoders with minimal 1/2/4/8 widths (floats bit-exact, f32 widening incl. subnormals/NaN); then every recorded call of the real arr_to_u64 / arr_to_i64 / arr_to_f64 and every element written by the real TagWriter (payload bytes + value read back by the real TagIterator) must equal the reference.",
          "Trusted: TLC, Json module, harness recording. Sampled beyond slices of <= 2 bytes and the value lattice.", "6 C16"),
 }
+
+RD_NOTE = "Trusted: TLC and the Json community module; the harness records the results of the public API (plus verif-hooks snapshots) without post-processing. Exhaustive only within the bounded model (every input over a 12-symbol alphabet up to length 4 quick / 5 thorough on schema S3); beyond it inputs, schemas, schedules and call histories are sampled (VERIF_SEED). Level 1 (ReaderCore) conformance is a reported statistic, not a verdict."
+def rd(mode, what, mc, drivers):
+    return ("TLA+ property specification P_%s (spec/props) checked by TLC against the Level 1 reader design on a bounded model (MC_Reader) and against traces recorded from the real TagIterator (trace/ReaderTrace.tla, mode %s)" % (mode, mode),
+            "TLC explores MC_Reader (%s) and checks that the design ReaderCore satisfies %s; every terminal behaviour of a smaller bound is replayed into the real iterator; then the drivers %s run the real iterator and TLC validates each recorded run/case against P_%s (verdict) and against ReaderCore with every field bound (conformance statistic). %s" % (mc, what, drivers, mode, ""),
+            RD_NOTE, "6 " + mode)
+CLAIMED.update({
+ "C03": rd("C03", "OffsetsMirror / Tiling / EndOffsets (each item re-derived from the bytes at its offset; hidden tiling cursor; End/Full offsets)", "all inputs <= 4/5 bytes, strict and fully tolerant, with/without buffering", "docs, mutate, buf, total"),
+ "C04": ("TLA+ relation P_C04 (schedule independence) evaluated by TLC on paired runs of the real TagIterator: slice vs read schedules / capacities / EOF pauses",
+         "For each input (valid, mutated, truncated) the harness records the reference run (whole input at once) and runs under read schedules (every partition of inputs <= 8 bytes quick / 11 thorough, random otherwise), capacities 0..4096 and temporary Ok(0) pauses at tag boundaries (single and sticky); TLC evaluates P_C04 (equal results item by item incl. the first error with all fields) per case, and each run against ReaderCore (statistic). The window model (ReaderBuf) is work in progress; the design-level part is the relation itself.",
+         RD_NOTE, "6 C04"),
+ "C05": rd("C05", "totality of every ReaderCore operator (TLC evaluation errors = panics), the linear item bound, Fused, and the monitor P_C05", "all inputs <= 4/5 bytes x tolerance x buffering x eofClose", "total (adversarial headers, random bytes, mutations, next/try_recover interleavings, injected source errors, capacities), mutate, sched_smallcap"),
+ "C06": rd("C06", "WellNested / ChainValid / Contained / EndExactlyAtExhaustion / EofEnds (shadow-stack monitor P_C06)", "all inputs <= 4/5 bytes, strict, eofClose on/off", "docs, mutate, suffixes (mid-document starts), enc_nested"),
+ "C07": rd("C07", "that every End of an unknown-size master sits exactly where ClosedBy / exhaustion / EOF puts it (monitor P_C07)", "all inputs <= 4/5 bytes, strict and hierarchy-tolerant", "enc_nested (unknown-size masters nested 1-5 deep followed by an element of every enclosing level, all 2^m encodings), enc (random trees, all/sampled subsets of masters unknown-size, compared with the all-known encoding), mutate"),
+ "C08": rd("C08", "RollupEqualsFlat (relation P_C08 between the buffered and the unbuffered parse of the same input)", "all inputs <= 4/5 bytes x buffered sets {B},{A,B},{R2}", "buf (all/sampled subsets of master ids buffered; valid, mutated, truncated inputs; known/unknown sizes)"),
+ "C12": rd("C12", "TruncOutcome (relation P_C12) for every valid document in the bound and every cut position", "all inputs <= 4/5 bytes, strict", "cut (every cut of small documents, boundaries +-1 and random cuts otherwise; capacities and chunkings)"),
+ "C13": rd("C13", "OnlyOwnKindSilenced / NoRawInStrict / StrictPrefixOfTolerant (relations P_C13)", "all inputs <= 4/5 bytes x all 8 tolerance sets", "tol (valid documents with one injected fault per class - unknown id, misplaced element, oversized child, size above limit - and mutated documents, under all 8 tolerance sets and limits)"),
+ "C14": ("TLA+ monitor + relation P_C14 evaluated by TLC on recorded runs of the real iterator with try_recover()",
+         "The harness inserts junk runs (1-16 bytes that cannot begin a tag of the schema) at tag boundaries of valid known-size documents where the following tag still fits, and records next/try_recover/continue runs next to the run over the undamaged document; TLC evaluates P_C14 (prefix unchanged, exactly one error, recover ok, remainder identical with shifted offsets) and, over arbitrary next/try_recover interleavings on adversarial inputs, the monitor (never backwards, no panic, fails only by eof/io). RecoverCall of ReaderCore is validated on the same traces (statistic).",
+         RD_NOTE, "6 C14"),
+})
+
 NA_REASON = "check not built yet (work in progress in this round)"
 
 def main():
